@@ -188,6 +188,10 @@ def run_engine(ctx: Ctx) -> dict:
     for nm, falsy in [("single_1x1_sink", "~a"), ("chain2_2x1_all", "~a,~b"), ("multiout_2x1_sinks", "~g,~u")]:
         if nm in by_name:
             jobs.append((by_name[nm], 0, falsy))
+    # values of a type with a registered custom serde (JobInstance.serdes) and of an unregistered subclass of it
+    for nm, boxed in [("chain2_2x1_all", "@a,^b"), ("multiout_2x1_sinks", "^g,@u"), ("diamond_2x1_src_sink", "^s,@m1,^k")]:
+        if nm in by_name:
+            jobs.append((by_name[nm], 0, boxed))
     with ThreadPoolExecutor(max_workers=JVM_SLOTS + 1) as tp:
         res["traces"] = list(tp.map(job_tr, jobs))
     ctx.log(f"cascade engine: {sum(t['n'] for t in res['traces'])} executions recorded and validated in {time.time()-t1:.0f}s")
